@@ -336,6 +336,9 @@ func reserialiseTOC(b []byte, tocOff int64, m member, model *common.MNode) ([]by
 }
 
 func run(t *testing.T, tape *simrt.Tape) *hx.Outcome {
+	if tape.Draw("cfg.campaign", 4) == 0 { // own stream: older tapes replay unchanged
+		return runDaemon(t, tape)
+	}
 	out := &hx.Outcome{Counters: map[string]int{}}
 	d := func(n int) int { return tape.Draw("gen", n) }
 	cs := []int{8, 17, 64}[d(3)]
